@@ -293,6 +293,30 @@ def _inverse_pairs(col, rule="C16.R2"):
     col.add(rule, "MeritFunctionForMatch._x_to_knobs~_knobs_to_x#same-guard", info["_x_to_knobs"] == info["_knobs_to_x"] and info["_x_to_knobs"] is not None, m.rel,
             "the two weight conversions apply under the same condition, so they are inverse to each other",
             str({k: [S.show(c) for c in v] if v else None for k, v in info.items()}))
+    # the users of the pair: _get_x reads knobs into x-space (divide), _set_x takes x to knobs (multiply) -- through the merit call or directly
+    gx = octx(repo, "MeritFunctionForMatch", "_get_x")
+    rets = gx.of_kind("return")
+    okg = bool(rets) and all(S.is_call_of(r.value, meth="_knobs_to_x") and r.value[1][1] == S.SELF for r in rets)
+    wrong = any(S.is_call_of(x, meth="_x_to_knobs") for r in rets for x in S.subterms(r.value))
+    if not okg and not wrong:
+        raise AnalysisError("MeritFunctionForMatch._get_x: conversion of the knob values to x not recognised (cannot decide)")
+    col.add(rule, "MeritFunctionForMatch._get_x#knobs-to-x", okg and not wrong, gx.loc(gx.fn), "_get_x returns _knobs_to_x(knob values)", "")
+    sx_ = octx(repo, "MeritFunctionForMatch", "_set_x")
+    xp = sx_.P(0)
+    via_call = [ev for ev in sx_.of_kind("call") if ev.term[:1] == ("call",) and ev.term[1] in (S.SELF, ("attr", S.SELF, "__call__")) and ev.term[2][:1] == (xp,)]
+    direct = [e for e in sx_.of_kind("store") if e.target[:1] == ("sub",) and S.contains(e.target, lambda t: t == S.sattr("vary"))]
+    conv = {x[1][2] for ev in sx_.events for tm in ([ev.term] if ev.kind == "call" else [v for v in (ev.value,) if v is not None])
+            for x in S.subterms(tm) if S.is_call_of(x) and x[1][:1] == ("attr",) and x[1][2] in ("_knobs_to_x", "_x_to_knobs") and xp in S.subterms(x)}
+    if via_call and not direct and not conv:
+        oks, why = True, "through self(x)"
+    elif direct and conv == {"_x_to_knobs"} and not via_call:
+        oks, why = True, "directly, with _x_to_knobs"
+    elif "_knobs_to_x" in conv:
+        oks, why = False, "x is converted with _knobs_to_x (division by the weight) on its way to the knobs"
+    else:
+        raise AnalysisError("MeritFunctionForMatch._set_x: how x reaches the knobs is not recognised (cannot decide)")
+    col.add(rule, "MeritFunctionForMatch._set_x#x-to-knobs", oks, sx_.loc(sx_.fn),
+            "_set_x is the inverse of _get_x: x reaches the knobs multiplied by the weights (_x_to_knobs, directly or inside the merit call)", why)
     try:
         s1, to_native = _map_expr(repo, "_scaled_to_native")
         s2, from_native = _map_expr(repo, "_scaled_from_native")
@@ -425,14 +449,20 @@ def _truncation_options(col, rule="C16.R4"):
 
 
 def check(col: Collector):
-    _truncation_options(col)
-    _shapes(col)
-    _truncation(col)
-    _inverse_pairs(col)
-    _finite_differences(col)
+    with col.rule():
+        _truncation_options(col)
+    with col.rule():
+        _shapes(col)
+    with col.rule():
+        _truncation(col)
+    with col.rule():
+        _inverse_pairs(col)
+    with col.rule():
+        _finite_differences(col)
     # the knob limits reach the solver (and the rescale_x view) through the same knob->x map as the knobs themselves
     from . import c10
     from .common import shared, construct_tag
-    shared(col, "C16.R5", [c10._limits],
-           select=lambda o: o.construct.startswith("MeritFunctionForMatch._get_x_limits#"),
-           why="rescale_x maps [0,1] onto the x-limits; limits converted with another factor than the knobs break the inverse pair")
+    with col.rule():
+        shared(col, "C16.R5", [c10._limits],
+               select=lambda o: o.construct.startswith("MeritFunctionForMatch._get_x_limits#"),
+               why="rescale_x maps [0,1] onto the x-limits; limits converted with another factor than the knobs break the inverse pair")
